@@ -468,8 +468,25 @@ def zlll(l):
     return vlist(zll(v) for v in l)
 
 
+def ul(l):
+    """list of non-negative integers < 2^63 as primitive-integer literals (elaborated ~6x faster than Z literals)"""
+    return "(U [%s]%%uint63)" % "; ".join("%d" % v for v in l)
+
+
+def ull(ll):
+    return "(UU [%s]%%uint63)" % "; ".join("[" + "; ".join("%d" % v for v in l) + "]" for l in ll)
+
+
+def strip0(d):
+    d = list(bytearray(d))
+    while d and d[-1] == 0:
+        d.pop()
+    return d
+
+
 def regions_lit(regs):
-    return vlist("(%s, %s)" % (zlit(b), zl(list(bytearray(d)))) for b, d in regs)
+    # trailing zero bytes of a region are dropped: unmapped memory reads as zero anyway
+    return "[%s]%%uint63" % "; ".join("RG %d [%s]" % (b, "; ".join("%d" % v for v in strip0(d))) for b, d in regs)
 
 
 def flat_ci(r):
@@ -520,11 +537,10 @@ def case_exprs(c, out, sim, tag="k"):
         a = cs["answer"]
         if a == "ok" or (isinstance(a, list) and a[0] == "flaky" and a[1] < N_TRIES):
             a1, a2, a3, data = machine.info_reply(cs)
-            infos.append("((%s, %s), mkReply %s %s %s %s)" % (zlit(x), zlit(y), zlit(a1), zlit(a2), zlit(a3),
-                                                             zl(list(bytearray(data)))))
+            infos.append("IE %d %d %d %d %d [%s]" % (x, y, a1, a2, a3, "; ".join("%d" % v for v in bytearray(data))))
     b1, b2, b3, bdata = machine.sver_reply(boot, 0)
     defs.append("Definition M_%s : list (Z * list Z) := %s." % (tag, mem))
-    defs.append("Definition I_%s : list (chip * reply) := %s." % (tag, vlist(infos)))
+    defs.append("Definition I_%s : list (chip * reply) := [%s]%%uint63." % (tag, "; ".join(infos)))
     defs.append("Definition R_%s := controller_system_info (mkReply %s %s %s %s) (mem_reader M_%s) (info_of I_%s)."
                 % (tag, zlit(b1), zlit(b2), zlit(b3), zl(list(bytearray(bdata))), tag, tag))
     head = ""
@@ -549,7 +565,7 @@ def case_exprs(c, out, sim, tag="k"):
         m = out["machine"]
         if isinstance(m, dict):
             add("machine", "hash_lll (flat_machine (build_machine si)) =? %s" % zlit(hlll(flat_machine(m))))
-            add("machine_queries", "hash_ll (machine_queries (build_machine si) %s) =? %s" % (zll(c["mq"]), zlit(hll(
+            add("machine_queries", "hash_ll (machine_queries (build_machine si) %s) =? %s" % ("(map (map Z.pred) %s)" % ull([[x + 1, y + 1] for x, y in c["mq"]]), zlit(hll(
                 [[x, y, inn] + ([0] if r is None else [1] + r) + [lm] for x, y, inn, r, lm in out["machine_queries"]]))))
             add("machine_iter", "hash_ll (flat_chips (pm_iter (build_machine si))) =? %s" % zlit(hll(out["machine_iter"])))
         else:
@@ -644,8 +660,13 @@ def nontrivial(c, out):
 
 
 # ------------------------------------------------------------------------------------------- the check
-HEADER = ("From Coq Require Import ZArith String List Bool. Import ListNotations. Open Scope Z_scope.\n"
-          "Require Import Rig.Model.Base Rig.Generated.GenProbe Rig.Model.Probe.\n")
+HEADER = ("From Coq Require Import ZArith String List Bool Uint63. Import ListNotations. Open Scope Z_scope.\n"
+          "Require Import Rig.Model.Base Rig.Generated.GenProbe Rig.Model.Probe.\n"
+          "Definition U (l : list int) : list Z := map Uint63.to_Z l.\n"
+          "Definition UU (l : list (list int)) : list (list Z) := map U l.\n"
+          "Definition RG (b : int) (d : list int) : Z * list Z := (Uint63.to_Z b, U d).\n"
+          "Definition IE (x y a b c : int) (d : list int) : chip * reply :=\n"
+          "  ((Uint63.to_Z x, Uint63.to_Z y), mkReply (Uint63.to_Z a) (Uint63.to_Z b) (Uint63.to_Z c) (U d)).\n")
 
 
 def run(chk, args):
